@@ -65,7 +65,7 @@ func EachCollection(ctx context.Context, c *arvados.Client, pageSize int, f func
 		Limit:              &limit,
 		Order:              "modified_at, uuid",
 		Count:              "none",
-		Select:             []string{"uuid", "unsigned_manifest_text", "modified_at", "portable_data_hash", "replication_desired"},
+		Select:             []string{"uuid", "unsigned_manifest_text", "modified_at", "portable_data_hash", "replication_desired", "storage_classes_desired"},
 		IncludeTrash:       true,
 		IncludeOldVersions: true,
 	}
